@@ -117,7 +117,9 @@ def run(rep, tier):
                 "each erased under {none, vars, consts+binders, all} with variables declared / undeclared, and all constraint "
                 "conjunctions of <= %s atoms over x0..x%s in canonical variable order (cycles of every length through fun and "
                 "list in every unification order, one variable at two types, annotated occurrences); every case goes through the "
-                "real type_infer, plus seeded random deeper terms with per-occurrence erasure masks and long random conjunctions%s. "
+                "real type_infer, plus seeded random deeper terms with per-occurrence erasure masks, long random conjunctions and a "
+                "seeded HISTORY in one process (the current theory switched all the time between three scratch theories declaring "
+                "the same constant names at different types; each event judged against the signature current at its call)%s. "
                 "Non-trivial = a returned term judged clause by clause, or an erasure of a well-typed term, or an "
                 "error/rejection that the algorithm model accounts for; distinct by (skeleton, context, outcome)."
                 % (("<= 3 calls, 3 variables", "2", "7", "3", "2", "") if quick else
@@ -127,6 +129,8 @@ def run(rep, tier):
                        "constants are looked up in the loaded theory 'real' (logic_base .. real); context.ctxt.defs is exercised only "
                        "by the seeded random family (free variables turned into constants under definition)",
                        "forbid_internal=True (the default used by the parser); infer_printed_type is not examined",
+                       "histories: theory.thy is switched by assignment between copies of the loaded theory extended with "
+                       "unchecked_extend; the event's signature is read from the theory current at the call",
                        "a call is given 5 s (median < 1 ms); RecursionError/MemoryError/timeout count as a violation only when the "
                        "as-found algorithm model accepts a cyclic binding for the same skeleton (DESIGN section 4 rule 5)"]
 
@@ -251,6 +255,8 @@ def _outcome_counts(rep, paths):
     require(got("typed/term") > 500 and got("typed/own:unspecified") > 100 and got("cs/term") > 100
             and got("cs/own:unify") > 100 and got("cs/own:loop") + got("cs/other") > 100,
             "C08: an outcome class is (almost) absent from the replay: %s" % c)
+    require(got("hist/term") > 200 and got("hist/own:unspecified") > 50 and got("histx/own") > 100,
+            "C08: the theory-switching history family is (almost) absent: %s" % c)
 
 
 def _first_leaf_path(t, kinds):
@@ -323,6 +329,26 @@ def replay(path):
         print("design-level finding: re-run ./check C08 quick")
         return 1
     e = obj["event"]
+    if e["fam"] in ("hist", "histx"):
+        # an event of a theory-switching history: re-run the whole seeded history, judge the event with the same key
+        g = e["gen"]
+        run_driver("c08", [g["mode"], g["n"], wd / "hist_all.ndjson", g["seed"]])
+        same = [x for x in read_events(wd / "hist_all.ndjson") if x["key"] == e["key"]]
+        require(same, "C08 replay: the history no longer contains the event %s" % e["key"])
+        write_events(wd / "pv.ndjson", probe_vectors())
+        run_driver("c08", ["replay", wd / "pv.ndjson", wd / "probe.ndjson"])
+        probe = {x["keep"]: x for x in read_events(wd / "probe.ndjson")}
+        tenv = {"C08_EOC": "TRUE" if probe["cycle"]["outcome"] == "own" else "FALSE",
+                "C08_AVC": "TRUE" if probe["annot"]["outcome"] == "own" else "FALSE"}
+        write_events(wd / "ev.ndjson", same)
+        print("outcome now:", same[0]["outcome"], same[0]["cls"] or same[0]["err"])
+        v = validate_trace(TSPEC, wd / "ev.ndjson", wd=wd / "tv", nchunks=1, env=tenv)
+        print("events:", v["consumed"], "fails:", v["fails"])
+        if v["fails"]:
+            print("VIOLATION property=C08 replay=%s" % path)
+            return 1
+        print("not reproduced on the current tree")
+        return 0
     write_events(wd / "vec.ndjson", probe_vectors() + [{k: e[k] for k in ("fam", "keep", "declared", "skel", "ctx", "orig")}])
     run_driver("c08", ["replay", wd / "vec.ndjson", wd / "ev_all.ndjson"])
     evs = read_events(wd / "ev_all.ndjson")
